@@ -14,7 +14,7 @@
     inputs. *)
 From Coq Require Import String Permutation.
 From Verif Require Import Lib.Base Lib.Dec Lib.PyStr Gen.DebConsts
-  Deb.Model Deb.Spec Deb.Proofs Deb.ProofsView Deb.ProofsPacked Deb.Check.
+  Deb.Model Deb.Spec Deb.Proofs Deb.ProofsView Deb.ProofsPacked Deb.ProofsMore Deb.Payload.
 
 (** 1. deb_accept_iff.  For every member list (any payloads, any order, any number
        of members): DebFile(...) succeeds iff 'debian-binary' is a member name and
@@ -106,6 +106,15 @@ Theorem C07_md5sums_roundtrip :
     md5sums P p_open pt = Ok (md5_dict es).
 Proof. exact md5sums_roundtrip. Qed.
 
+(** ... also when the last line lacks its LF (CRs allowed) *)
+Theorem C07_md5sums_roundtrip_open :
+  forall (P : Type) (p_open : P -> option tarview) (pt : part P) v es e,
+    tgz P p_open pt = Ok v ->
+    tar_find v (dot_slash MD5_FILE) = Some (Some (render_md5 es ++ render_open e)) ->
+    forallb entry_ok es = true -> entry_ok e = true ->
+    md5sums P p_open pt = Ok (md5_dict (es ++ [e])).
+Proof. exact md5sums_roundtrip_open. Qed.
+
 Theorem C07_md5_dict_distinct :
   forall es, NoDup (map m_name es) -> md5_dict es = map (fun e => (m_name e, m_md5 e)) es.
 Proof. exact md5_dict_nodup. Qed.
@@ -127,6 +136,22 @@ Theorem C07_scripts_exact :
       if existsb (script_is_dir v) MAINT_SCRIPTS then Err DebError
       else Ok (script_entries v MAINT_SCRIPTS).
 Proof. exact scripts_exact. Qed.
+
+(** the script names are the five of the property text; and for a package whose
+    scripts are distinct maintainer-script names, the dict of theorem 6
+    ([restrict MAINT_SCRIPTS m]) is, as a map, exactly what was packed — in the very
+    sense [holds] compares maps ([Spec.same_map]) *)
+Theorem C07_script_names_match_spec : same_set MAINT_SCRIPTS SPEC_SCRIPTS = true.
+Proof. exact script_names_match_spec. Qed.
+
+Theorem C07_scripts_as_map :
+  forall m : pairs,
+    nodup_keys m = true -> forallb (fun kv => mem (fst kv) MAINT_SCRIPTS) m = true ->
+    same_map (restrict MAINT_SCRIPTS m) m = true.
+Proof. intros m. exact (restrict_same_map MAINT_SCRIPTS m scripts_nodup). Qed.
+
+Theorem C07_same_map_refl : forall m : pairs, nodup_keys m = true -> same_map m m = true.
+Proof. exact same_map_refl. Qed.
 
 (** 5. the bytes handed to Deb822 by debcontrol() *)
 Theorem C07_control_bytes :
@@ -213,6 +238,17 @@ Example C07_md5_nonvacuous :
            (s "etc/trailing ", s "900150983cd24fb0d6963f7d28e17f72")].
 Proof. vm_compute. repeat split. Qed.
 
+(** the last line without LF; the packed scripts as a map; a key_ok name *)
+Example C07_more_nonvacuous :
+  md5_lines (readlines (render_md5 ex_md5 ++ render_open (mkE (s "abc") (s "  ") (s "last one") 2))%list) []
+    = Ok (md5_dict (ex_md5 ++ [mkE (s "abc") (s "  ") (s "last one") 2])%list)
+  /\ nodup_keys [(s "postinst", s "x"); (s "config", [])] = true
+  /\ forallb (fun kv => mem (fst kv) MAINT_SCRIPTS) [(s "postinst", s "x"); (s "config", [])] = true
+  /\ restrict MAINT_SCRIPTS [(s "config", []); (s "postinst", s "x")] = [(s "postinst", s "x"); (s "config", [])]
+  /\ plain_name (s "usr/share/doc/a b  c.txt") = true /\ key_ok (s "usr/share/doc/a b  c.txt") = true
+  /\ key_ok (s "dir/") = false /\ plain_name (s "./x") = false.
+Proof. vm_compute. repeat split. Qed.
+
 (** a package, assembled in the order data, junk, debian-binary, control, read
     through the very instance the correspondence check runs ([PTar]/[PRaw] payloads:
     [arch k v := PTar v] meets the round-trip hypothesis by computation) *)
@@ -274,9 +310,13 @@ Print Assumptions C07_spelling_invariant.
 Print Assumptions C07_spellings_lookup.
 Print Assumptions C07_key_ok_plain.
 Print Assumptions C07_md5sums_roundtrip.
+Print Assumptions C07_md5sums_roundtrip_open.
 Print Assumptions C07_md5_dict_distinct.
 Print Assumptions C07_md5sums_missing.
 Print Assumptions C07_scripts_exact.
+Print Assumptions C07_script_names_match_spec.
+Print Assumptions C07_scripts_as_map.
+Print Assumptions C07_same_map_refl.
 Print Assumptions C07_control_bytes.
 Print Assumptions C07_deb_returns_packed.
 Print Assumptions C07_deb_returns_packed_assembled.
